@@ -7,6 +7,7 @@ blocking or non-blocking, a dropped `drain`, a changed channel capacity or selec
 -/
 import GoZero.Extracted.C10
 import GoZero.C10.Driver
+import GoZero.C10.Props5
 namespace GoZero.C10.Tie
 open GoZero.Extracted.C10
 
@@ -21,8 +22,20 @@ theorem tie_mapReduceShape : mapReduceShape =
 
 /-- MapReduceVoid: the reducer gets no writer; ErrReduceNoOutput becomes nil (driver: `ok`). -/
 theorem tie_mapReduceVoidShape : mapReduceVoidShape =
-    ["func{", "call reducer", "}", "call MapReduce", "if errors.Is(err, ErrReduceNoOutput) {", "return", "}",
-    "return"] := by decide
+    ["func{", "call markCancel", "call mapper", "}", "func{", "call markCancel", "call reducer", "}", "call MapReduce",
+    "if ok {", "return", "}", "if errors.Is(err, ErrReduceNoOutput) {", "return", "}", "return"] := by decide
+
+/-- round 5 (fix C10-void-cancel-sentinel): BOTH user functions of MapReduceVoid get the marking cancel — item and
+writer are forwarded unchanged. -/
+theorem tie_mapReduceVoidMapperArgs : mapReduceVoidMapperArgs = ["item, writer, markCancel(cancel)"] := by decide
+theorem tie_mapReduceVoidReducerArgs : mapReduceVoidReducerArgs = ["input, markCancel(cancel)"] := by decide
+theorem tie_markCancelShape : markCancelShape =
+    ["func{", "if err != nil {", "}", "call cancel", "}", "return"] := by decide
+
+/-- `markCancel`: a non-nil error is marked, nil is passed on unmarked (`Spec5.markCancelArgM`), for all errors. -/
+theorem tie_markCancelArg (err : Option Nat) :
+    GoZero.Extracted.C10.markCancelArg err = GoZero.C10.markCancelArgM err := by
+  cases err <;> rfl
 
 /-- ForEach: dispatcher goroutine + the caller loop `select {panicChan → panic; collector closed → repanic, return}`. -/
 theorem tie_forEachShape : forEachShape =
@@ -229,7 +242,7 @@ theorem tie_mapReduceChanForwardArgs : mapReduceChanForwardArgs =
 
 /-- MapReduceVoid forwards generate, mapper, its wrapper reducer and ALL options. -/
 theorem tie_mapReduceVoidForwardArgs : mapReduceVoidForwardArgs =
-    ["generate, mapper, func, opts..."] := by decide
+    ["generate, func, func, opts..."] := by decide
 
 /-- the reducer reads the collector, writes through the guarded writer, gets the once-cancel. -/
 theorem tie_reducerCallArgs : reducerCallArgs =
@@ -313,8 +326,18 @@ theorem tie_callerCtxCase : GoZero.Extracted.C10.callerCtxCase =
     (some (GoZero.C10.encErr .deadline), some (GoZero.C10.encErr .deadline)) := by decide
 
 /-- MapReduceVoid maps ErrReduceNoOutput (and only it) to nil (`Spec.voidReturn`, driver `showRes`). -/
-theorem tie_voidReturn (err : Option Nat) : GoZero.Extracted.C10.voidReturn err = GoZero.C10.voidReturn err := by
-  cases err <;> rfl
+theorem tie_errorsIs_noOutput (err : Option Nat) :
+    GoZero.Extracted.C10.errorsIs err (some GoZero.Extracted.C10.errReduceNoOutput) = GoZero.C10.isNoOutput err := by
+  simp [GoZero.Extracted.C10.errorsIs, GoZero.C10.isNoOutput, GoZero.C10.encErr, GoZero.Extracted.C10.errReduceNoOutput,
+    Bool.or_assoc]
+
+/-- round 5: the marked error is returned as it is, THEN `errors.Is(err, ErrReduceNoOutput)` ↦ nil, for all errors and
+both values of the mark (`Spec5.voidReturnNow`; `errors.Is` also matches a user error that is / wraps the sentinel:
+`Spec.isNoOutput`). -/
+theorem tie_voidReturn (fromCancel : Bool) (err : Option Nat) :
+    GoZero.Extracted.C10.voidReturn fromCancel err = GoZero.C10.voidReturnNow fromCancel err := by
+  unfold GoZero.Extracted.C10.voidReturn GoZero.C10.voidReturnNow GoZero.C10.voidReturnIs
+  rw [tie_errorsIs_noOutput]
 
 /-- Finish / FinishVoid: return at once iff there is no function; pass WithWorkers(len(fns)) (`Spec.finishCfg`,
 `Spec.forEachCfg`); Finish's mapper cancels with the function's error iff it is not nil (`Spec.fnScript`). -/
@@ -328,5 +351,76 @@ theorem tie_finishVoidWorkers (n : Nat) : GoZero.Extracted.C10.withWorkers (GoZe
   simp [GoZero.Extracted.C10.finishVoidWorkersArg, tie_withWorkers]
 theorem tie_finishMapperCancel (err : Option Nat) : GoZero.Extracted.C10.finishMapperCancel err = err.map some := by
   cases err <;> rfl
+
+/-! ### round 5: the ORDER OF EFFECTS of the cleanup paths as typed lists (`Extracted.C10.Eff`), in source order
+
+Each list is what the model's step table for that actor was written against; a statement outside the vocabulary would
+appear as `Eff.other …` and break the equality. -/
+
+/-- `cancel`: the error is recorded FIRST (model: the step that takes the once also sets `retErr`,
+`Props5.cancel_sets_error_first`), then the source is drained (`.cdrain`), then `finish` (seeded C10-4 swapped the
+first two). -/
+theorem tie_cancelEffects : cancelEffects = [.retErrSet, .drainSource, .finish] := by decide
+
+/-- `finish`: `done` is closed before `output` (model: `fin := true` is one step; a writer that sees `output` closed
+has `done` closed). -/
+theorem tie_finishEffects : finishEffects = [.closeDone, .closeOutput] := by decide
+
+/-- the caller's deferred function: first wait until `output` is closed (the reducer goroutine has ended), THEN look
+for a captured panic (model: `CPc.wait` → `CPc.check`; seeded C10-2 swapped them). -/
+theorem tie_callerDeferEffects : callerDeferEffects = [.rangeOutputPanic, .repanic] := by decide
+
+/-- the reducer goroutine: user reducer, then drain the collector, hand over a panic, finish (`stepRed`: `.run` →
+`.drain` → `.pwrite`/`.psend` → `.finish`). -/
+theorem tie_reducerGoEffects : reducerGoEffects =
+    [.callUser "reducer", .drainCollector, .recoverBegin, .panicWrite, .recoverEnd, .finish] := by decide
+
+/-- the caller's panic case drains `output` before re-raising; its context case cancels with DeadlineExceeded and
+returns DeadlineExceeded (`stepCaller`). -/
+theorem tie_callerPanicCaseEffects : callerPanicCaseEffects = [.drainOutput, .panicV] := by decide
+theorem tie_callerCtxCaseEffects : callerCtxCaseEffects = [.cancelDeadline, .errDeadline] := by decide
+
+/-- the dispatcher's deferred function: wait for every worker, THEN close the collector, THEN drain the source
+(`stepDisp`: `.wait` → `.close` → `.drain`; `Props.collector_open_while_mappers_run`). -/
+theorem tie_dispatcherDeferEffects : dispatcherDeferEffects = [.wgWait, .closeCollector, .drainSource] := by decide
+
+/-- one worker: the mapper, then on a panic `failed += 1` BEFORE the hand-over, then `wg.Done`, then the pool slot
+(`stepMapper`: `.recovered` → `.pwrite` → `.psend` → `.wgdone` → `.unpool`). -/
+theorem tie_workerGoEffects : workerGoEffects =
+    [.callUser "mapper", .recoverBegin, .failedInc, .panicWrite, .recoverEnd, .wgDone, .poolRelease] := by decide
+
+/-- the generator goroutine: generate, hand over a panic, THEN close the source (`stepGen`: `.run` → `.pwrite` →
+`.psend` → `.close`). -/
+theorem tie_generatorGoEffects : generatorGoEffects =
+    [.callUser "generate", .recoverBegin, .panicWrite, .recoverEnd, .closeSource] := by decide
+
+/-! ### round 5: the functions AS EXTRACTED, composed along the path of a cancel error -/
+
+/-- the whole path of an error through the code as it is now — `markCancel` → `cancel` (records through
+`AtomicError.Set`) → the caller's output branch (reads through `AtomicError.Load`) → `MapReduceVoid`'s return — composed
+from the TRANSLATED Go functions: the error that was passed to cancel comes back, for every error code (also the zero
+valued classes, the library's sentinels and what wraps them), ErrCancelWithNil (code 0) for nil. -/
+theorem tie_void_path_returns_the_cancel_error (e : Option Nat) (ok : Bool) (v : Nat) :
+    GoZero.Extracted.C10.voidReturn (GoZero.Extracted.C10.markCancelArg e).2
+      (GoZero.Extracted.C10.callerOutput (GoZero.Extracted.C10.cancelRecords (GoZero.Extracted.C10.markCancelArg e).1) ok v).2
+      = some (e.getD 0) := by
+  rw [tie_markCancelArg, tie_cancelRecords, tie_callerOutput, tie_voidReturn]
+  exact GoZero.C10.Props5.void_returns_the_cancel_error e ok v
+
+/-- `Finish`: a function that returns a non-nil error makes the mapper call cancel with exactly that error, and the
+path above returns it. -/
+theorem tie_finish_path_returns_the_function_error (k : Nat) (ok : Bool) (v : Nat) :
+    (GoZero.Extracted.C10.finishMapperCancel (some k)).map (fun a =>
+      GoZero.Extracted.C10.voidReturn (GoZero.Extracted.C10.markCancelArg a).2
+        (GoZero.Extracted.C10.callerOutput (GoZero.Extracted.C10.cancelRecords (GoZero.Extracted.C10.markCancelArg a).1) ok v).2)
+      = some (some k) := by
+  rw [tie_finishMapperCancel]
+  simp [tie_void_path_returns_the_cancel_error]
+
+/-- `MapReduce` / `MapReduceChan`: cancel(e) then the caller's output branch, from the translated functions. -/
+theorem tie_mr_path_returns_the_cancel_error (k : Nat) (ok : Bool) (v : Nat) :
+    (GoZero.Extracted.C10.callerOutput (GoZero.Extracted.C10.cancelRecords (some k)) ok v) = (0, some k) := by
+  rw [tie_cancelRecords, tie_callerOutput]
+  simp [GoZero.C10.callerOutput, GoZero.C10.cancelRecords, GoZero.C10.aeSet, GoZero.C10.aeLoad]
 
 end GoZero.C10.Tie
